@@ -238,6 +238,7 @@ func diffServed(a, b map[string]any) string {
 
 func runC11(c *runCtx) {
 	defer cleanupScratch()
+	c11Lru(c)
 	N := c.pick(30, 300)
 	for si := 0; si < N; si++ {
 		r := c.rng.fork()
